@@ -21,6 +21,8 @@ def run(chk, tier):
             from props import c04
             chk.guarded(c04.r_filter, P)
             chk.guarded(r_witness, P)
+            chk.guarded(r_byte_offsets, P)
+    chk.assume("chrono::Local is not used from another thread-local's destructor (std's LocalKey::with panics during/after TLS destruction)")
     chk.assume("rustc's privacy and visibility checks are sound (compile-fail witnesses)")
     chk.assume("std callees without a panic model are assumed not to panic (list in evidence coverage.unmodelled); allocation failure and stack depth are out of scope")
     chk.assume("foreign TimeZone/Offset/Datelike implementations are assumed not to panic and to respect documented ranges")
@@ -46,6 +48,45 @@ def r_absint(chk, P, tier, cfg):
     chk.expect(nroots >= {"default": 200, "serde": 230, "locales": 230, "nodefault": 150}[cfg], "roots", "only %d fallible entry points found" % nroots)
     eng = res["engine"]
     chk.extra.setdefault("unmodelled", {})[cfg] = dict(eng.unmodelled)
+
+
+STR_INDEX = "core::str::traits::<impl std::ops::Index<I> for str>::index"
+
+
+def r_byte_offsets(chk, P):
+    """A `str` is sliced by byte offsets. An offset that is a count of characters (the index of `chars().enumerate()`, `chars().count()`,
+    `chars().position(..)`) is a different coordinate and lands inside a multi-byte character. Tag propagation over MIR locals in every
+    function of the crate that slices a `str`."""
+    from rules import tag_locals
+    chk.rule("DIM.byte_offsets", "no `str` slicing offset is derived from a count of characters (chars().enumerate() / count() / position())", floor=40)
+
+    def call_tag(t):
+        c = t["callee"]
+        r = c.get("resolved") or c.get("def") or ""
+        g = " ".join(c.get("gargs") or [])
+        if "Chars<" in g and ("Enumerate<" in g or r.split("::")[-1] in ("count", "position", "rposition")) and r.split("::")[-1] in ("next", "next_back", "nth", "last", "count", "position", "rposition"):
+            return ("add", {"char-count"})
+        if "Bytes<" in g and "Enumerate<" in g and r.endswith("::next"):
+            return ("add", {"byte-index"})
+        if r in ("std::char::methods::<impl char>::len_utf8", "core::str::<impl str>::len", "core::str::<impl str>::find"):
+            return ("set", {"byte-length"})
+        return None
+    sites = 0
+    live = False
+    for fn, f in sorted(P.fns.items()):
+        if "mir" not in f or not any(b["t"]["k"] == "call" and (b["t"]["callee"].get("resolved") == STR_INDEX) for b in f["mir"]["blocks"]):
+            continue
+        tags, of = tag_locals(P, fn, lambda tys, idx: None, call_tag=call_tag)
+        for b in f["mir"]["blocks"]:
+            t = b["t"]
+            if b.get("cleanup") or t["k"] != "call" or t["callee"].get("resolved") != STR_INDEX:
+                continue
+            sites += 1
+            tg = of(t["args"][1:])
+            live = live or "byte-index" in tg
+            chk.expect("char-count" not in tg, "%s @%d" % (fn, sites), "`str` slice offset in %s derives from a count of characters (char index used as byte offset): slicing a "
+                       "multi-byte string panics or cuts a character" % fn, loc="%s:%s" % (f.get("file"), t.get("ln")))
+    chk.expect(live, "control: byte-index tag reaches a slice offset (comment_2822)", "positive control failed: the index of bytes().enumerate() no longer reaches any str slice offset (tags not live)")
 
 
 def r_witness(chk, P):
